@@ -34,6 +34,24 @@ def discovery_of(S):
     return d, cg
 
 
+def morph(d, S0, S):
+    """bring the Discovery object from state S0 to state S through its own API (same agents): the object has a history"""
+    for c, agts in S0["reps"].items():
+        for a in agts:
+            if a not in S["reps"].get(c, []):
+                d.unregister_replica(c, a, publish=False)
+    for c, a in S0["host"].items():
+        if S["host"].get(c) != a:
+            d.unregister_computation(c, a, publish=False)
+    for c, a in S["host"].items():
+        if S0["host"].get(c) != a:
+            d.register_computation(c, a, publish=False)
+    for c, agts in S["reps"].items():
+        for a in agts:
+            if a not in S0["reps"].get(c, []):
+                d.register_replica(c, a, publish=False)
+
+
 def norm_info(info):
     agts, fixed, cand = info
     return {"agts": sorted(agts), "fixed": dict(fixed), "cand": {n: sorted(x) for n, x in cand.items()}}
@@ -51,8 +69,28 @@ def binvars_for(info_by_comp):
 
 def execute(case):
     S, D = case["S"], sorted(case["D"])
+    if case["op"] == "info" and case.get("prev"):
+        # the same departed set is first asked on an EARLIER state of the same Discovery object (an agent can leave, come back and
+        # leave again; the directory changes in between): the answers must follow the current state
+        d, cg0 = discovery_of(case["prev"])
+        try:
+            RM._removal_orphaned_computations(D, d)
+            for a in RM._removal_candidate_agents(D, d):
+                RM._removal_candidate_agt_info(a, D, cg0, d)
+        except Exception:    # noqa  (the earlier state is only a history; what it answers is judged by its own case)
+            pass
+        morph(d, case["prev"], S)
+        cg = ComputationGraph(nodes=[ComputationNode(c, neighbors=list(S["nbr"][c])) for c in S["comps"]])
+        msg = _execute_info(case, S, D, d, cg)
+        return msg and msg + " (Discovery object that was first in another state, asked for the same departed agents, then changed through its API)"
     d, cg = discovery_of(S)
     if case["op"] == "info":
+        return _execute_info(case, S, D, d, cg)
+    return _execute_con(case, S, D, d, cg)
+
+
+def _execute_info(case, S, D, d, cg):
+    if True:
         got = sorted(RM._removal_orphaned_computations(D, d))
         if got != sorted(case["orphaned"]):
             return "orphaned computations %s, expected %s" % (got, sorted(case["orphaned"]))
@@ -73,6 +111,9 @@ def execute(case):
                 if any(h in D for h in g["fixed"].values()):
                     return "fixed neighbour of %s hosted on a departed agent: %s" % (c, g["fixed"])
         return None
+
+
+def _execute_con(case, S, D, d, cg):
     a = case["a"]
     info = RM._removal_candidate_agt_info(a, D, cg, d)
     bv = binvars_for(info)
@@ -110,11 +151,27 @@ def run(tier):
     for i, (nag, nc) in enumerate([(3, 3), (4, 3)] if quick else [(3, 3), (4, 3), (4, 4), (5, 4)]):
         cases, res = CC.generate("Gen_C26", consts=dict(NAg=nag, NC=nc, NStates=0), workers=8, seed=seed() + 26 + i, heap="6g")
         v.add_tlc(res, "discovery states x departed sets with repair info and constraint tables (Gen_C26, %d agents, %d computations)" % (nag, nc))
+        # every info case is also run as the second half of a two-state history of one Discovery object (previous case's state,
+        # same agents and computations)
+        states, extra = [], []
+        for c in cases:
+            if c["op"] == "info" and c["S"] not in states:
+                states.append(c["S"])
+        k = 0
+        for c in cases:
+            if c["op"] == "info" and c["orphaned"]:
+                for j in range(2):
+                    k += 1
+                    prev = states[(states.index(c["S"]) + 1 + (k * 7 + j * 3) % max(1, len(states) - 1)) % len(states)]
+                    if prev != c["S"] and prev["agents"] == c["S"]["agents"] and prev["comps"] == c["S"]["comps"]:
+                        extra.append(dict(c, prev=prev))
+        cases = cases + extra
+        v.cov["two_state_histories"] = v.cov.get("two_state_histories", 0) + len(extra)
         CC.run_cases(v, cases, execute, key_of, nontrivial=lambda c: (c["op"] == "info" and len(c["orphaned"]) > 0) or (c["op"] != "info" and len(c["scope"]) > 0))
     v.cov["exhaustive"] = False
     v.cov["rule"] = ("36 TLC-drawn discovery states per size (host map, replica sets, computation graph) x every non-trivial set of departed agents; "
                      "repair info compared as sets / maps; each of the four repair constraints built as ResilientAgent.setup_repair does and evaluated on "
-                     "every 0/1 assignment of its scope (expected values from RepairInfo.tla); non-trivial = some computation is orphaned / the scope is not empty")
+                     "every 0/1 assignment of its scope (expected values from RepairInfo.tla); every info case also as the second state of a two-state history of ONE Discovery object (the same departed set asked before and after the directory changed through its API); non-trivial = some computation is orphaned / the scope is not empty")
     v.cov["trusted_base"] = ["TLC (RepairInfo.tla)", "vlib/props/C26.py population of the Discovery object"]
     return v.finish()
 
